@@ -172,8 +172,60 @@ class NohInBBResidual(Obligation):
         cx.eq('Noh pressure = ideal_gas_eos.P(rho, e)', cx['p_noh'], cx['p_eos'])
 
 
+class BBWrapperVsGeneral(Obligation):
+    """black-box Noh: a geometry wrapper (built with its default initial state, another wrapper of a DIFFERENT geometry built
+    before it is first evaluated - every wrapper mutates the default dict it was handed) solves the same jump problem as the
+    general class with that symmetry.  The class-level Newton solver is one shared contract stub (same system -> same root)."""
+
+    def __init__(self, a, b):
+        from . import C16, C02
+        self.C16, self.C02 = C16, C02
+        self.a, self.b = a, b
+        self.bb = H.mod(C16.BBM)
+        self.id = 'C07.wrapper.nohbb.%s-with-%s' % (a[:3], b[:3])
+        self.modules = [self.bb, H.mod(C16.EOSM), H.mod(C16.RESM)]
+        self.extra_shim = {'ExactSolution': Recorder, 'print': H.quiet_print}
+        self.functions = [getattr(self.bb, a).__init__, self.bb.NohBlackBoxEos.__init__, self.bb.NohBlackBoxEos.solve_jump_conditions]
+        self.bounds = 'gamma of both equations of state symbolic; default initial state; order: build A, build B, evaluate A'
+        self.skip_validation = True
+
+    def build(self, mk):
+        bb, C16 = self.bb, self.C16
+        if Mode.symbolic(mk):
+            from symx.engine import current
+            ex = current()
+            if 'shared_newton' not in ex.notes:
+                ex.notes['shared_newton'] = self.C02._NewtonStub()
+            bb.NohBlackBoxEos.solver = ex.notes['shared_newton']
+        elif isinstance(bb.NohBlackBoxEos.solver, self.C02._NewtonStub):
+            bb.NohBlackBoxEos.solver = H.mod(C16.NEWM).newton_solver()
+        eos = C16.make_eos('ideal_gas_eos', mk)
+        A = getattr(bb, self.a)(eos)
+        getattr(bb, self.b)(C16.make_eos('ideal_gas_eos', H.Sub(mk, lambda n: mk('o_' + n))))
+        sym_ = A.geometry - 1
+        gen = bb.NohBlackBoxEos(eos, {'density': 1, 'velocity': -1, 'pressure': 0, 'symmetry': sym_})
+        out = {}
+        for tag, s in (('w', A), ('g', gen)):
+            s.solve_jump_conditions()
+            out[tag + '_symmetry_used'] = s.residual_funciton.symmetry
+            out[tag + '_shocked_density'], out[tag + '_shocked_energy'], out[tag + '_shock_speed'] = s.shocked_density, s.shocked_energy, s.shock_speed
+        out['w_symmetry_attr'] = A.initial_conditions['symmetry']
+        out['g_symmetry_attr'] = sym_
+        return out
+
+    def domain(self, V):
+        return [T.gt(V('gamma'), T.ONE), T.gt(V('o_gamma'), T.ONE)]
+
+    def claims(self, cx):
+        for k in ('symmetry_used', 'symmetry_attr', 'shocked_density', 'shocked_energy', 'shock_speed'):
+            cx.eq('wrapper %s = general class %s' % (k, k), cx['w_' + k], cx['g_' + k])
+
+
 def bbnoh_obligations(tier):
-    return [NohInBBResidual(g) for g in (1, 2, 3)]
+    obs = [NohInBBResidual(g) for g in (1, 2, 3)]
+    for a, b in (('PlanarNohBlackBox', 'SphericalNohBlackBox'), ('CylindricalNohBlackBox', 'PlanarNohBlackBox'), ('SphericalNohBlackBox', 'CylindricalNohBlackBox')):
+        obs.append(BBWrapperVsGeneral(a, b))
+    return obs
 
 
 # ------------------------------------------------------------------ heat: sandwiches vs rod, BC3 vs mirrored BC4
